@@ -641,6 +641,68 @@ def _has_memo(src) -> bool:
     return any(d in ('lru_cache', 'cache', 'memoize') for d in fi.decorators)
 
 
+def _r8_eval(run: Run, src):
+    """the two routes to an executed instance, decided by abstract evaluation (engine F) of Executor.set_executed_class: the class
+    object is called without arguments; the file is loaded through load_module and the class named ExcelInPython of THAT module is
+    called without arguments; titles and sizes are taken from the instance made; neither given: a library exception"""
+    from ..finite import evaluator_for_class, AV, const_av, Unknown, AbsRaise
+    from .common import exception_bases
+    ex = src.cls('Executor')
+    fi = ex.methods['set_executed_class']
+    loc = loc_of(fi.module.path, fi.node)
+    lib = library_exceptions(src)
+    for route in ('class_object', 'class_file', 'neither', 'both'):
+        ev = evaluator_for_class(ex, max_depth=8)
+        ev.exception_bases = exception_bases(src)
+        made = []
+
+        def klass(origin):
+            def make(a, origin=origin):
+                if a:
+                    raise AbsRaise('TypeError', 'ExcelInPython() takes no arguments')
+                inst = ev.new_obj('ExcelInPython', {
+                    'get_titles': AV('func', val=('native', lambda a2: const_av('titles of ' + origin))),
+                    'get_sheets_size': AV('func', val=('native', lambda a2: const_av('sizes of ' + origin)))})
+                made.append(origin)
+                return inst
+            return AV('func', val=('native', make))
+        loaded = []
+
+        def load_module(args, kwargs):
+            loaded.append(args[0].val if args else None)
+            return ev.new_obj('module', {'ExcelInPython': klass(f'file {args[0].val}')})
+        ev.externals = {'load_module': load_module}
+        me = ev.new_obj('Executor', {})
+        kw = {}
+        if route in ('class_object', 'both'):
+            kw['class_object'] = klass('object')
+        if route in ('class_file', 'both'):
+            kw['class_file'] = const_av('gen.py')
+        construct = f'Executor.set_executed_class/{route}'
+        try:
+            ev.call_method('__init__', [], me)
+            ev.call_method('set_executed_class', [], me, kw)
+            at = ev.obj_attrs(me)
+            got = (made, at.get('_titles', AV('none')).val, at.get('_sheets_size', AV('none')).val)
+        except Unknown as u:
+            raise AnalysisError('C06.R8', f'{construct}: the abstraction cannot follow the executor ({u})')
+        except AbsRaise as e:
+            got = 'rejects' if e.exc in lib else f'raises {e.exc}'
+        if route == 'neither':
+            ok = got == 'rejects'
+            want = 'a library exception'
+        elif route == 'class_file':
+            ok = got == (['file gen.py'], 'titles of file gen.py', 'sizes of file gen.py') and loaded == ['gen.py']
+            want = 'the class ExcelInPython of the loaded file, called without arguments'
+        else:
+            ok = isinstance(got, tuple) and len(got[0]) == 1 and got[1] == 'titles of ' + got[0][0] and got[2] == 'sizes of ' + got[0][0] and \
+                (route == 'both' or got[0] == ['object'])
+            want = 'the given class object, called without arguments'
+        run.check(ok, 'C06.R8', construct, 'instantiation',
+                  f'with {route.replace("_", " ")} given, set_executed_class loads {loaded} and ends with {got!r}; it must make one instance from {want} and take '
+                  f'titles and sizes from that instance', fact=f'-> {str(got)[:80]}', loc=loc)
+
+
 def r8(run: Run, src):
     ex = src.cls('Executor')
     fi = ex.methods.get('set_executed_class')
@@ -648,9 +710,15 @@ def r8(run: Run, src):
         raise AnalysisError('C06.R8', 'Executor.set_executed_class not found')
     stores = [n for n in ast.walk(fi.node) if isinstance(n, ast.Assign) and any(
         isinstance(t, ast.Attribute) and t.attr == '_executed_instance' for t in n.targets)]
-    if len(stores) < 2:
+    evaluated = False
+    try:
+        _r8_eval(run, src)
+        evaluated = True
+    except AnalysisError as e:
+        run.note(f'C06.R8: the two routes by structure ({e.reason[:120]})')
+    if not evaluated and len(stores) < 2:
         raise AnalysisError('C06.R8', 'expected two stores to _executed_instance (class object / class file)')
-    for st in stores:
+    for st in ([] if evaluated else stores):
         v = st.value
         ok = isinstance(v, ast.Call) and not v.args and not v.keywords
         what = ast.unparse(v)[:80]
